@@ -8,14 +8,14 @@ CV(S, lens) == UNION {[1..k -> {Const(R(i)) : i \in S}] : k \in lens}
 Half        == Const(<<1, 2>>)
 I(s)        == [i \in DOMAIN s |-> Const(R(s[i]))]
 
-BQuick == CV({-1, 0, 1, 2}, {1, 2})
+BQuick(u) == CV({-1, 0, 1, 2}, {1, 2})
           \cup {I(<<1, 0, -1>>), I(<<0, 0, 2>>), I(<<2, -1, 1>>), I(<<1, 0, 0, 0, -1>>), I(<<0, 0, 0, 2>>)}
-AQuick == {<<Const(R(a0))>> \o r : a0 \in {1, -1, 2}, r \in {<<>>} \cup CV({-1, 0, 1, 2}, {1})
+AQuick(u) == {<<Const(R(a0))>> \o r : a0 \in {1, -1, 2}, r \in {<<>>} \cup CV({-1, 0, 1, 2}, {1})
                                                      \cup {I(<<1, -1>>), I(<<0, 2>>), I(<<-1, 1>>), I(<<0, 0, 1>>)}}
 
-BFull  == CV({-1, 0, 1, 2}, {1, 2, 3}) \cup {I(<<1, 0, 0, 0, -1>>), I(<<0, 0, 0, 2>>), <<Half, Const(R(1))>>,
+BFull(u) == CV({-1, 0, 1, 2}, {1, 2, 3}) \cup {I(<<1, 0, 0, 0, -1>>), I(<<0, 0, 0, 2>>), <<Half, Const(R(1))>>,
                                               <<Const(R(1)), Half, Half>>}
-AFull  == {<<Const(R(a0))>> \o r : a0 \in {1, -1, 2, 3}, r \in {<<>>} \cup CV({-1, 0, 1, 2}, {1, 2})
+AFull(u) == {<<Const(R(a0))>> \o r : a0 \in {1, -1, 2, 3}, r \in {<<>>} \cup CV({-1, 0, 1, 2}, {1, 2})
                                                      \cup {I(<<0, 0, 1>>), I(<<0, 0, -2>>), <<Half>>, <<Half, Const(R(-1))>>}}
 
 Grid(B, A) ==
@@ -26,6 +26,5 @@ Grid(B, A) ==
   \cup {[b |-> b, a |-> a, mem |-> "exact", zero |-> "sym", adv |-> v] :
       b \in {I(<<1, 1>>), I(<<2>>), I(<<0, 1, -1>>), I(<<0, 0>>)}, a \in {I(<<1>>), I(<<1, -1>>), I(<<2, 0, 1>>)}, v \in {1, 2}}
 
-C04Quick    == Grid(BQuick, AQuick)
-C04Thorough == Grid(BFull, AFull)
+\* the grids themselves are in FilterC04Q / FilterC04T (TLC evaluates zero-arity definitions at start-up)
 ============================================================================
